@@ -292,6 +292,33 @@ func (g *gen) openStream(t int64) {
 	g.h.doReplicateOpen(g.nextSid, t)
 }
 
+// staleFirstRequest: the first request after a restart (the shard is on disk, not loaded) is one of an older term
+func (g *gen) staleFirstRequest() {
+	h, r := g.h, g.r
+	if h.fatal != "" || !r.Chance(60) {
+		return
+	}
+	t := g.term - 2 - int64(2*r.Intn(2))
+	switch r.Intn(6) {
+	case 0:
+		h.doDeleteShard(t)
+	case 1:
+		h.doTruncate(t, -1, -1)
+	case 2:
+		h.doBecomeLeader(t)
+	case 3:
+		g.nextSid++
+		h.doReplicateOpen(g.nextSid, t)
+	case 4:
+		g.nextSid++
+		h.doSnapshot(g.nextSid, t, 1, 0)
+	default:
+		h.doNewTerm(t)
+	}
+	h.checkFence("stale first request")
+	h.settle()
+}
+
 // afterRace: bookkeeping of the generator for the actions a race realised (from index n on)
 func (g *gen) afterRace(n int) {
 	h := g.h
@@ -500,7 +527,7 @@ func (g *gen) step() {
 			s := s
 			add(2, func() { h.doStreamBreak(s.sid) })
 		}
-		add(2, func() { h.doCrashRestart(r.Intn(8)) })
+		add(2, func() { h.doCrashRestart(r.Intn(8)); g.staleFirstRequest() })
 		wsn := 2
 		if len(recv) > 0 {
 			wsn = 1
@@ -514,7 +541,7 @@ func (g *gen) step() {
 			g.nextSid++
 			n := len(h.outs)
 			fail := 0
-			if r.Chance(35) {
+			if t >= 0 && r.Chance(35) { // (a term -1 disables the chunk term check altogether)
 				fail = 1 + r.Intn(3)
 			}
 			h.doSnapshot(g.nextSid, t, c, fail)
@@ -610,6 +637,12 @@ func (g *gen) step() {
 		add(1, func() { h.doTruncate(term+2, 0, 0) })
 		add(1, func() { h.doCrashRestart(r.Intn(8)) })
 	}
+	// DeleteShard through the director: older term (must be refused), current / newer term (removes the shard)
+	add(2, func() { h.doDeleteShard(g.term - 2 - int64(2*r.Intn(2))) })
+	add(1, func() {
+		h.doDeleteShard(term + int64(2*r.Intn(2)))
+		g.plan, g.done = map[int64][3]int64{}, map[int64]bool{}
+	})
 	total := 0
 	for _, c := range cs {
 		total += c.w
@@ -733,6 +766,10 @@ func (h *H) exec(a string) {
 		h.doWriteRacingNewTerm(atoi(f[1]), atoi(f[2]))
 	case "LS":
 		h.doLeaderSync()
+	case "DS":
+		h.doDeleteShard(atoi(f[1]))
+	case "KL":
+		h.doKill(int(atoi(f[1])), false)
 	}
 }
 
@@ -783,6 +820,10 @@ var builtin = [][2]string{
 		"2=ok=2:0:1,2:1:2/4=bad=/6=bad=/8=bad="},
 	{"NT:6;TR:6:-1:-1;SN:1:6:0:2;CR:0;NT:2;NT:8", "6=bad=/2=bad=/8=bad="},
 	{"NT:2;RO:1:2;AP:1:2:0:1:-1;SE:1;BR:1;RACE/SN:2:2:1/recv1/NT:4;RACE/SN:3:4:1/recv2/NT:6;NT:6", "2=ok=2:0:1/4=bad=/6=bad="},
+	// DeleteShard through the director in each residency state: not loaded (after a restart), loaded as follower, as leader;
+	// older terms are refused, the current term removes the shard
+	{"NT:6;TR:6:-1:-1;RO:1:6;AP:1:6:0:1:-1;SE:1;CR:0;DS:4;NT:4;NT:6;TR:6:6:0;DS:2;NT:8;BL:8;CW:2;LS;DS:6;NT:8;DS:8;NT:2;BL:2;CW:3;LS",
+		"6=ok=6:0:1/4=bad=/8=bad=/2=bad="},
 	// a Truncate of the same term is refused once the node follows (with a stream, without, after acks)
 	{"NT:2;TR:2:-1:-1;TR:2:-1:-1;RO:1:2;AP:1:2:0:1:-1;AP:1:2:1:2:-1;SE:1;TR:2:2:0;BR:1;TR:2:2:0;TR:2:-1:-1;RO:2:2;AP:2:2:2:3:-1;SE:2",
 		"2=ok=2:0:1,2:1:2,2:2:3"},
